@@ -529,6 +529,8 @@ def errors_propagate(ctx, cr):
                 d = M.norm_path(callee.get("decl", ""))
                 if d in ("std::ops::Try::branch", "std::ops::FromResidual::from_residual"):
                     return None
+                if not callee.get("local") and M.norm_path(callee.get("path", "")).startswith(("std::result::", "std::option::")):
+                    return None     # map_err / ok_or / and_then ... re-shape a Result that already exists; they are not a second error source
                 if term.get("to") is not None and st.top is st.frames[0] and is_guard_result(cr, st.top.body, term["dest"]):
                     mon = st.mon or Mon()
                     site = M.norm_path(callee.get("path", "")).split("::")[-1]
